@@ -408,7 +408,12 @@ map_linux_aarch64(struct os_init_data *ctl)
 	if (status != ADDRXLAT_OK)
 		return status;
 
-	add_linux_linear_map(ctl);
+	/* The linear mapping is optional, but running out of memory
+	 * must not be mistaken for "no linear mapping".
+	 */
+	status = add_linux_linear_map(ctl);
+	if (status == ADDRXLAT_ERR_NOMEM)
+		return status;
 	clear_error(ctl->ctx);
 
 	return ADDRXLAT_OK;
